@@ -357,4 +357,12 @@ theorem lookup2_at (pre post : List (κ × List (Nat × ν))) (k : κ) (inner : 
   rfl
 
 
+/-! ### non-vacuity -/
+
+/-- non-vacuity of the table specifications: register for GET and POST, remove POST -/
+example : lookup2 (fanOut ([] : List (Str × List (Nat × Nat))) "/a".toList 6 7) "/a".toList 4 = some 7 := by decide
+
+example : (popInner (fanOut ([] : List (Str × List (Nat × Nat))) "/a".toList 6 7) "/a".toList 4 true).toOption.map
+    (fun d => (lookup2 d "/a".toList 4, lookup2 d "/a".toList 2)) = some (none, some 7) := by decide
+
 end Poor.Props.C19
